@@ -17,7 +17,12 @@ type Unit struct {
 	LvSkip  int  // levels it adds where the value is walked by nextValueBytes (skip / Raw)
 	KeyPos  bool // the nested value sits in map-key position (a container there is unhashable as an interface{} key)
 	NoTyped bool
+	Hostile bool // the head claims a length no input can honour (0xFFFFFFFF80000000 = math.MinInt32 as an int32, the
+	// containerLenNil sentinel): the only acceptable outcome is an error, at every depth
 }
+
+// MinInt32Len is the 64-bit length whose low 32 bits are math.MinInt32 (containerLenNil) once truncated.
+const MinInt32Len = 0xFFFFFFFF80000000
 
 func cat(bs ...[]byte) []byte {
 	var out []byte
@@ -87,6 +92,14 @@ func NakedUnits(f Fmt, o Opts) []Unit {
 	add("map-val/w4", cat(HeadBytes(f, NMap, 1, 4, 0), one), nil, 1, 1, false)
 	add("map-strkey", MapStr(f, "a"), nil, 1, 1, false)
 	add("map-key", HeadBytes(f, NMap, 1, 0, 0), one, 1, 1, true)
+	if f == Cbor || f == Simple || f == Binc {
+		var brk []byte
+		if f == Cbor {
+			brk = []byte{0xff} // a container "without length" is read up to the break byte
+		}
+		us = append(us, Unit{Name: "arr-len-minint32", Pre: HeadBytes(f, NArr, MinInt32Len, 8, 0), Suf: brk, LvDec: 1, LvSkip: 1, Hostile: true})
+		us = append(us, Unit{Name: "map-len-minint32", Pre: cat(HeadBytes(f, NMap, MinInt32Len, 8, 0), one), Suf: brk, LvDec: 1, LvSkip: 1, Hostile: true})
+	}
 	if f == Cbor {
 		add("arr-indef", []byte{0x9f}, []byte{0xff}, 1, 1, false)
 		add("map-indef", cat([]byte{0xbf}, one), []byte{0xff}, 1, 1, false)
@@ -120,11 +133,68 @@ type T struct {
 
 // TUnits nest a T inside a T through each of its fields.
 func TUnits(f Fmt) []Unit {
-	return []Unit{
+	var hostile []Unit
+	if f == Cbor || f == Simple || f == Binc {
+		var brk []byte
+		if f == Cbor {
+			brk = []byte{0xff}
+		}
+		key := cat(HeadBytes(f, NStr, 1, 0, 0), []byte("P"))
+		hostile = []Unit{{Name: "T.P-len-minint32", Pre: cat(HeadBytes(f, NMap, MinInt32Len, 8, 0), key), Suf: brk, LvDec: 1, LvSkip: 1, Hostile: true}}
+	}
+	return append(hostile, []Unit{
 		{Name: "T.P", Pre: MapStr(f, "P"), Suf: CloseMap(f), LvDec: 1, LvSkip: 1},
 		{Name: "T.A", Pre: cat(MapStr(f, "A"), Arr1(f)), Suf: cat(CloseArr(f), CloseMap(f)), LvDec: 2, LvSkip: 2},
 		{Name: "T.M", Pre: cat(MapStr(f, "M"), MapStr(f, "k")), Suf: cat(CloseMap(f), CloseMap(f)), LvDec: 2, LvSkip: 2},
+	}...)
+}
+
+// FlatInput is a long input WITHOUT nesting: stack use must not grow with its length either.
+func FlatInput(f Fmt, kind string, n int) []byte {
+	switch kind {
+	case "json-escapes": // a string of n backslash escapes
+		return cat([]byte{'"'}, bytes.Repeat([]byte("\\n"), n), []byte{'"'})
+	case "json-uescapes":
+		return cat([]byte{'"'}, bytes.Repeat([]byte("\\u00e9"), n), []byte{'"'})
+	case "long-array":
+		if f == Json {
+			return cat([]byte("[1"), bytes.Repeat([]byte(",1"), n-1), []byte("]"))
+		}
+		return cat(HeadBytes(f, NArr, uint64(n), 0, 0), bytes.Repeat(One(f), n))
+	case "long-string":
+		if f == Json {
+			return cat([]byte{'"'}, bytes.Repeat([]byte("a"), n), []byte{'"'})
+		}
+		return cat(HeadBytes(f, NStr, uint64(n), 0, 0), bytes.Repeat([]byte("a"), n))
+	case "cbor-chunks":
+		return cat([]byte{0x7f}, bytes.Repeat([]byte{0x61, 'a'}, n), []byte{0xff})
 	}
+	panic("no flat input " + kind)
+}
+
+// FlatKinds lists the flat inputs of a format.
+func FlatKinds(f Fmt) []string {
+	ks := []string{"long-array", "long-string"}
+	if f == Json {
+		ks = append(ks, "json-escapes", "json-uescapes")
+	}
+	if f == Cbor {
+		ks = append(ks, "cbor-chunks")
+	}
+	return ks
+}
+
+// WrapFor puts a value where the path expects it.
+func (p Path) WrapFor(f Fmt, v []byte) []byte {
+	switch p.Name {
+	case "field":
+		return cat(MapStr(f, "x"), v, CloseMap(f))
+	case "rawfield":
+		return cat(MapStr(f, "R"), v, CloseMap(f))
+	case "ifacefield":
+		return cat(MapStr(f, "V"), v, CloseMap(f))
+	}
+	return v
 }
 
 // SelfTree is a recursive type with a hand-written Selfer, written as the Selfer documentation suggests: it
